@@ -14,11 +14,19 @@
                            `Gen.C19.chunked` (1000) centres, chunk-wise into a pre-allocated table
     * `collect`            `evaluate_models_searchlight`: results of tasks that finish in any order,
                            stored by task index (joblib's contract)
+    * `getItem`, `iterGet`, `slTasks`, `evalSearchlight`, `parCollect`
+                           `evaluate_models_searchlight` as coded: `for x in sl_RDM` (legacy
+                           `__getitem__` iteration of `RDMs`) builds one task per row, joblib `par`
+                           is a parameter (`parCollect`: slot per task under a completion order)
+    * `linspacePts`, `ptsOkB`
+                           the split points as numpy computes them (IEEE doubles, executed only) and
+                           the executable admissibility check
   Specification side:
     * `allVoxels`, `neighborsSpec` (every in-volume voxel, tested directly), `unravel`
     * `calcRdm`            the direct RDM of a data matrix with conditions given by the event labels
 
-  Everything is generic in the number type `α` (executed at `Rat`/`Float`, proved over ordered fields).
+  Everything (except `linspacePts`, which is `Float` by nature) is generic in the number type `α`
+  (executed at `Rat`/`Float`, proved over ordered fields).
   Imports core Lean only.
 -/
 import Rsa.Core.Num
@@ -55,8 +63,12 @@ def sqDist (v : Vox) (c : Ctr) : Int :=
 
 /-- `cdist(v, centre) < radius`, i.e. `√k < r` with `k` the (non-negative, integer) squared
     distance, written without a square root: `0 < r ∧ k < r²`
-    (`Rsa.Props.C19.distLt_iff_sqrt` proves the equivalence over `ℝ`). -/
-def distLt (k : Int) (r : α) : Bool := decide ((0 : α) < r) && decide ((k : α) < r * r)
+    (`Rsa.Props.C19.distLt_iff_sqrt` proves the equivalence over `ℝ`).  The comparison itself
+    is the one of the source (`distance < radius`, regenerated as `Rsa.Gen.C19.radiusTest`),
+    applied to the squares: squaring is strictly monotone on non-negative numbers, so for
+    `0 < r` the source's operator relates `√k` and `r` exactly as it relates `k` and `r²`. -/
+def distLt (k : Int) (r : α) : Bool :=
+  decide ((0 : α) < r) && Rsa.Gen.C19.radiusTest (k : α) (r * r)
 
 /-- `X, Y, Z = np.meshgrid(x, y, z); np.vstack((X.ravel(), Y.ravel(), Z.ravel())).T` -/
 def grid (xs ys zs : List Nat) : List Vox :=
@@ -158,6 +170,71 @@ def slRdms {α : Type} [Zero α] (rdmOf : List (List α) → List α) (width : N
     the slot of its task index -/
 def collect {γ : Type} (n : Nat) (f : Nat → γ) (sched : List Nat) : List (Option γ) :=
   scatter (List.replicate n none) (sched.map (fun i => (i, some (f i))))
+
+/-! ### split points as numpy computes them -/
+
+/-- `np.linspace(0, n, 101, dtype=int)[1:-1]` **as numpy computes it**: `step = n / 100` in
+    doubles, `y = arange(101) * step`, `floor`, cast to int (the first and last entries are cut
+    off, so the `y[-1] = stop` fix-up of `linspace` does not matter).  IEEE doubles, so this
+    definition is executed, not reasoned about; the correspondence compares it with numpy for
+    every `n` of a wide range and `ptsOkB` validates the hypothesis of `chunks_partition`. -/
+def linspacePts (n : Nat) : List Nat :=
+  let step : Float := Float.ofNat n / Float.ofNat 100
+  (List.range 99).map (fun i => (Float.floor (Float.ofNat (i + 1) * step)).toUInt64.toNat)
+
+/-- executable check of admissibility of split points: non-decreasing and `≤ n`
+    (`Rsa.Props.C19.ptsOkB_sound`: equivalent to `PtsOk`) -/
+def ptsOkB (n : Nat) : List Nat → Bool
+  | [] => true
+  | [p] => decide (p ≤ n)
+  | p :: q :: ps => decide (p ≤ q) && decide (p ≤ n) && ptsOkB n (q :: ps)
+
+/-! ### `evaluate_models_searchlight`: one task per centre -/
+
+/-- what `get_searchlight_RDMs` returns: the table of RDM vectors and the
+    `rdm_descriptors['voxel_index']` list (= the centres handed in) -/
+structure SlResult (α : Type) where
+  rows : List (List α)
+  voxelIndex : List Nat
+
+/-- `get_searchlight_RDMs(...)` as the object handed on to the evaluation -/
+def slResult {α : Type} [Zero α] (rdmOf : List (List α) → List α) (width : Nat)
+    (data : List (List α)) (centers : List Nat) (neighbors : List (List Nat))
+    (pts : List Nat) : SlResult α :=
+  { rows := slRdms rdmOf width data centers neighbors pts, voxelIndex := centers }
+
+/-- `RDMs.__getitem__(i)` for an integer `i`: row `i` of the dissimilarities with entry `i`
+    of every rdm descriptor; numpy raises `IndexError` (`none`) beyond the last row -/
+def getItem {α : Type} (R : SlResult α) (i : Nat) : Option (List α × Nat) :=
+  match R.rows[i]?, R.voxelIndex[i]? with
+  | some row, some v => some (row, v)
+  | _, _ => none
+
+/-- Python's legacy iteration protocol (`for x in obj` on a class with `__getitem__` and no
+    `__iter__`): `obj[0], obj[1], …` until `IndexError` -/
+def iterGet {β : Type} (get : Nat → Option β) : Nat → Nat → List β
+  | 0, _ => []
+  | fuel + 1, i =>
+    match get i with
+    | none => []
+    | some x => x :: iterGet get fuel (i + 1)
+
+/-- the task arguments built by `evaluate_models_searchlight`: `for x in sl_RDM` -/
+def slTasks {α : Type} (R : SlResult α) : List (List α × Nat) :=
+  iterGet (getItem R) (R.rows.length + 1) 0
+
+/-- `evaluate_models_searchlight(sl_RDM, models, eval_function, …)`: `Parallel(n_jobs)(delayed(
+    eval_function)(models, x, …) for x in sl_RDM)`; `par` is joblib (a parameter: it gets the
+    task list and the function and returns the list of results, of type `γ` or — for the
+    slot model `parCollect` — `Option γ`) -/
+def evalSearchlight {α γ δ : Type} (par : List (List α × Nat) → (List α × Nat → γ) → List δ)
+    (evalF : List α × Nat → γ) (R : SlResult α) : List δ :=
+  par (slTasks R) evalF
+
+/-- joblib as slot-per-task collection: the tasks complete in the order `sched`, each result is
+    stored in the slot of its task index (`none` = a slot never filled) -/
+def parCollect {τ γ : Type} (sched : List Nat) (tasks : List τ) (f : τ → γ) : List (Option γ) :=
+  (collect tasks.length (fun i => (tasks[i]?).map f) sched).map Option.join
 
 /-! ### the direct RDM of a data matrix (specification used by the correspondence) -/
 section rdm
